@@ -162,8 +162,14 @@ func isIn(xs []int, x int) bool {
 	return false
 }
 
-func MemberName(i int) primitives.MemberId   { return primitives.MemberId(fmt.Sprintf("n%02d", i)) }
-func OutsiderName(i int) primitives.MemberId { return primitives.MemberId(fmt.Sprintf("x%02d", i)) }
+// Identities are 20 bytes long, like node addresses, and share their first bytes (anything that identifies a member by a
+// shortened or printable form of its id confuses them).
+func MemberName(i int) primitives.MemberId {
+	return primitives.MemberId(fmt.Sprintf("member-address-%02d-aa", i))
+}
+func OutsiderName(i int) primitives.MemberId {
+	return primitives.MemberId(fmt.Sprintf("member-address-x%d-zz", i))
+}
 
 // Committee of a height: the configured order rotated by Rot*(h-1).
 func (w *World) Committee(h primitives.BlockHeight) []interfaces.CommitteeMember {
